@@ -94,6 +94,17 @@ type BehavCheck struct {
 	Deadline    time.Duration
 	ParkPoints  []string
 	PostRun     func(ev *Evidence) (violations []string, known []string, err error)
+	// Families: further generators whose behaviours are kept only if Select holds (at most Max)
+	Families []Family
+}
+
+// Family is a focused generator: TLC simulates Sim, the harness keeps the behaviours that contain
+// the pattern Select describes.
+type Family struct {
+	Name   string
+	Sim    SimSpec
+	Select func(b *model.Behaviour) bool
+	Max    int
 }
 
 var backends = []string{"mem", "mem", "mem", "mem", "mem", "prefix", "prefix", "level", "level", "prefixlevel"}
@@ -194,6 +205,12 @@ func (c *BehavCheck) Run() int {
 		mcDone = mcDone && r.Finished
 		mcNotes = append(mcNotes, fmt.Sprintf("%s: %d distinct states, %d transitions, depth %d, %.1fs", mc.Module, r.Distinct, r.Generated, r.Depth, r.Wall.Seconds()))
 	}
+	if os.Getenv("VERIF_MC_ONLY") != "" { // development: measure the model-checking stage only
+		for _, n := range mcNotes {
+			fmt.Println("MC", n)
+		}
+		return 0
+	}
 	// 2. TLC generates behaviours
 	behs, simGenerated, err := GenerateBehaviours(c.Sim, c.Seed)
 	if err != nil {
@@ -209,6 +226,22 @@ func (c *BehavCheck) Run() int {
 		}
 		transitions += sg
 		behs = append(behs, sb...)
+	}
+	famNotes := map[string]string{}
+	for fi, f := range c.Families {
+		fb, fg, err := GenerateBehaviours(f.Sim, c.Seed+9000+int64(fi))
+		if err != nil {
+			return fail(2, "INCONCLUSIVE: "+err.Error())
+		}
+		transitions += fg
+		kept := 0
+		for _, b := range fb {
+			if kept < f.Max && f.Select(b) {
+				behs = append(behs, b)
+				kept++
+			}
+		}
+		famNotes[f.Name] = fmt.Sprintf("%d of %d generated behaviours contain the pattern, %d used", countIf(fb, f.Select), len(fb), kept)
 	}
 	// 3. replay
 	rng := rand.New(rand.NewSource(c.Seed))
@@ -425,6 +458,9 @@ func (c *BehavCheck) Run() int {
 	ev.Coverage["evaluations"] = len(results)
 	ev.Coverage["distinct_nontrivial"] = nontrivial
 	ev.Coverage["rule"] = c.Rule
+	if len(famNotes) > 0 {
+		ev.Coverage["focused_families"] = famNotes
+	}
 	ev.Coverage["exhaustive"] = false
 	ev.Coverage["model_checking_exhaustive_on_bounded_instance"] = mcDone
 	ev.Coverage["model_checking_runs"] = mcNotes
